@@ -67,6 +67,16 @@ class Monitor(explore.BaseMonitor):
         return self.deltas
 
 
+def max_update():
+    import struct
+    from ..alphabet import attr, update_body
+    fixed = attr(0x40, 1, b'\x00') + attr(0x40, 2, struct.pack('!BBI', 2, 1, 65001)) + attr(0x40, 3, b'\x0a\x00\x00\x01')
+    padlen = 4096 - 19 - 4 - len(fixed) - 4 - 4
+    f = wire.frame(wire.UPDATE, update_body(b'', fixed + struct.pack('!BBH', 0xD0, 99, padlen) + bytes(padlen), b'\x18\x0a\x01\x01'))
+    assert len(f) == 4096
+    return f
+
+
 def requests():
     upd = simple_update(65001)
     return {
@@ -80,6 +90,8 @@ def requests():
         '@send_bin_eor': ('POST', '/v1/peer/<ip>/send/bin_update', {'binary_data': wire.frame(wire.UPDATE, b'\x00\x00\x00\x00').hex()}),
         '@send_bin_eor3': ('POST', '/v1/peer/<ip>/send/bin_update',
                            {'binary_data': (upd + wire.frame(wire.UPDATE, b'\x00\x00\x00\x00') + upd).hex()}),
+        # a maximum-size (4096 octets) UPDATE between two small ones
+        '@send_bin_max': ('POST', '/v1/peer/<ip>/send/bin_update', {'binary_data': (upd + max_update() + upd).hex()}),
         # more prefixes than one 4096-octet UPDATE holds: one message, several messages or a refusal - counted as written
         '@send_huge': ('POST', '/v1/peer/<ip>/send/update',
                        {'attr': {'1': 0, '2': [[2, [65001]]], '3': '10.0.0.1'}, 'nlri': ['10.%d.%d.1/32' % (i // 256, i % 256) for i in range(1200)]}),
@@ -172,7 +184,13 @@ def hostile_phase(tier, seed, col):
                 if f not in seen:
                     seen.add(f)
                     items.append((lab + '-mutated', f))
+    for st_ in (0, 1, 2, 3, 255):
+        items.append(('route-refresh-subtype-%d' % st_, wire.route_refresh(1, 1, st_)))
+        items.append(('route-refresh-128-subtype-%d' % st_, wire.route_refresh(1, 1, st_, 128)))
     tasks = [(st, items[i:i + 400]) for st in ('opensent', 'openconfirm', 'established') for i in range(0, len(items), 400)]
+    # the capability-rich session: the reference messages and the ROUTE-REFRESH subtypes only (the corpus adds nothing there)
+    rich = [it for it in items if it[0].startswith('route-refresh') or len(it[1]) <= 64][:600]
+    tasks += [('established-rich', rich[i:i + 300]) for i in range(0, len(rich), 300)]
     total = 0
     for n, out in explore.pmap(hostile_task, tasks, chunk=1):
         total += n
